@@ -214,6 +214,8 @@ func (c *gen) class() *Expr {
 			if !e.IC {
 				// ranges that cross the end of Basic Latin
 				pairs = append(pairs, [2]rune{'{', 'é'}, [2]rune{' ', '￿'}, [2]rune{'~', '¡'})
+				// ranges between two characters without case that hold letters of one case only
+				pairs = append(pairs, [2]rune{' ', '_'}, [2]rune{'[', '~'}, [2]rune{'!', '@'})
 			}
 			if c.cfg.ICUnsafe {
 				pairs = append(pairs, [2]rune{'0', 'Z'}, [2]rune{'Z', 'a'}, [2]rune{'A', 'z'}, [2]rune{'_', 'b'}, [2]rune{'c', 'a'})
